@@ -129,8 +129,8 @@ func c05(c *Check) {
 	c.Rule("C05/one-ack-per-receive", "msg server RecvPacket: every success path for a packet addressed to this chain, and for an unknown destination, executes WriteAcknowledgement exactly once (relay paths: none); all WriteAcknowledgement errors propagate; the success ack carries the result unpacked from this callback's return data", 4)
 	ms := c.F(xibcK + "Keeper.RecvPacket")
 	m := msM
-	local := m.X("(client/keeper.(Keeper).GetChainName($0.ClientKeeper, {CC}#0) == {DST})")
-	localOuter := m.X("(client/keeper.(Keeper).GetChainName($0.ClientKeeper, {CTX}) == {DST})") // same read on the message context (nothing is written in between)
+	local := m.X("({DST} == client/keeper.(Keeper).GetChainName($0.ClientKeeper, {CC}#0))")
+	localOuter := m.X("({DST} == client/keeper.(Keeper).GetChainName($0.ClientKeeper, {CTX}))") // same read on the message context (nothing is written in between)
 	unknown := m.X("!client/keeper.(Keeper).GetClientState($0.ClientKeeper, {CTX}, {DST})#1")
 	paths := c.PathCounts(ms, func(cs *CallSite) bool { return strings.HasSuffix(cs.Name, "keeper.(Keeper).WriteAcknowledgement") })
 	nLocal, nUnknown, nRelay := 0, 0, 0
